@@ -1060,9 +1060,58 @@ def run(ctx):
         elif diffs:
             ctx.correspondence_broken(
                 f"{opname} vs Lean model", f"case {c['cid']} edges={c['edges']} labels={c['labels']}: " + "; ".join(diffs[:4]))
+    complex_hopping_stream(ctx)
     ctx.notes.append("ham_heisenberg_from_edges does not divide anything: every edge gets qu.ham_heis(2, **kwargs); "
                      "a field `b` passed through kwargs would be counted once per incident edge (no coordination "
                      "argument exists); checked here only: keys = edges, one S.S operator on every edge")
+
+
+def complex_hopping_stream(ctx):
+    """complex (Peierls-phase) hoppings next to real on-site terms: the builders are linear in the
+    hopping, so every edge array for t = tr + i*ti must equal array(tr, U, mu) + i * array(ti, 0, 0)
+    exactly (small integers / 4).  Real code only (the Lean model of the builders is rational)."""
+    import symmray.hamiltonians as H
+
+    rng = ctx.rng
+    for _ in range(8 if ctx.tier == "quick" else 60):
+        model = rng.choice(["hubbard", "spinless"])
+        sym = rng.choice(SPINFUL_SYMS if model == "hubbard" else SPINLESS_SYMS)
+        n = rng.randint(2, 4)
+        pairs = [(i, i + 1) for i in range(n - 1)] + ([(0, n - 1)] if n > 2 and rng.random() < 0.5 else [])
+        edges = orient(rng, pairs)
+        tr = {tuple(sorted(e)): rng.randint(-4, 4) / 4 for e in edges}
+        ti = {tuple(sorted(e)): rng.choice([-1, 1]) * rng.randint(1, 4) / 4 for e in edges}
+        mu = {s: 12 * rng.randint(1, 3) * rng.choice([-1, 1]) for s in range(n)}  # real, non-zero
+        on = {s: 12 * rng.randint(0, 3) for s in range(n)}
+        V = rng.randint(-3, 3)
+
+        def build(tfn, mufn, onfn, v):
+            if model == "hubbard":
+                return H.ham_fermi_hubbard_from_edges(sym, edges, t=tfn, U=onfn, mu=mufn)
+            return H.ham_fermi_hubbard_spinless_from_edges(sym, edges, t=tfn, V=v, mu=mufn)
+
+        ctx.evaluations += 1
+        ctx.stat(f"complex_hopping:{model}:{sym}")
+        case = dict(what="complex_hopping", model=model, sym=sym, edges=[list(e) for e in edges],
+                    t=[[list(k), [tr[k], ti[k]]] for k in tr], mu=mu, onsite=on, V=V)
+        try:
+            full = build(lambda a, b: complex(tr[tuple(sorted((a, b)))], ti[tuple(sorted((a, b)))]),
+                         lambda s_: float(mu[s_]), lambda s_: float(on[s_]), float(V))
+            re_ = build(lambda a, b: tr[tuple(sorted((a, b)))], lambda s_: float(mu[s_]), lambda s_: float(on[s_]), float(V))
+            im_ = build(lambda a, b: ti[tuple(sorted((a, b)))], lambda s_: 0.0, lambda s_: 0.0, 0.0)
+        except Exception as e:  # noqa
+            ctx.violation(f"builder raised with a complex hopping: {type(e).__name__}: {e}", case,
+                          triggers=["complex_hopping"], op="ham_from_edges")
+            return
+        for key in re_:
+            got = np.asarray(full[key].to_dense())
+            exp = np.asarray(re_[key].to_dense()) + 1j * np.asarray(im_[key].to_dense())
+            if not np.array_equal(got, exp):
+                ctx.violation(f"edge {key}: the term built for a complex hopping is not the real-part term plus i times "
+                              f"the imaginary-part hopping term (dtype {got.dtype}): the edge terms do not add up to "
+                              f"the lattice Hamiltonian", case, triggers=["complex_hopping"], op="ham_from_edges",
+                              detail=dict(max_abs_diff=float(np.max(np.abs(got - exp)))))
+                return
 
 
 def replay(ctx, payload):
